@@ -196,7 +196,13 @@ func (r *c08Run) writer(tid int, conn net.Conn, lens []int, start chan struct{},
 	}
 	for w, n := range lens {
 		r.pause(tid, 1)
-		_, err := conn.Write(c08Payload(tid, w, n))
+		var err error
+		if hc, ok := conn.(*hap.Connection); ok && !r.forced && tid%3 == 2 {
+			// (round 9, C08-r9m2) the exported EncryptedWrite is a writer too: it must take the same lock as Write / WriteEvent
+			_, err = hc.EncryptedWrite(c08Payload(tid, w, n))
+		} else {
+			_, err = conn.Write(c08Payload(tid, w, n))
+		}
 		r.log("R", tid)
 		if err != nil {
 			r.mu.Lock()
